@@ -211,7 +211,7 @@ func retryRules(c *Ctx) {
 			if k, isK := constInt(st.Val); isK && k == 300*1000*1000 {
 				got := P.PathCond(q.fn, nil, st, func(f string) bool { return strings.Contains(f, "rate") })
 				if fs := got.Forms(); len(fs) == 1 {
-					okd, _ = an.EquivDNF(got, an.DNF{an.Conj{fs[0]: an.SNeg | an.SZero}})
+					okd, _ = an.EquivDNF(got, an.DNF{conj(lit(an.FormLinBase(fs[0]), an.SNeg|an.SZero))})
 				}
 				_ = rate
 			}
